@@ -109,6 +109,18 @@ def lp_encoding(ctx, rule):
                 from .prune import vec_elements
                 els = vec_elements(F, b, R, a[1]) or []
                 coeffs_ok = bool(els) and all(any(is_call(x, 'zip') and s(x[2][1]) == s(('field', row_item[0], '0')) for x in walk(e_)) for e_ in els)
+            # nothing may thin the row out: every coefficient reaches the solver (a stage that drops terms may only drop exact zeros)
+            from .prune import closure_ret
+            for x in walk(a[1]):
+                if is_call(x, 'Iterator::skip', 'Iterator::take', 'Iterator::step_by', 'Iterator::skip_while', 'Iterator::take_while', 'Iterator::filter_map'):
+                    problems.append('terms of a constraint row are dropped (%s)' % x[1])
+                if is_call(x, 'Iterator::filter') and len(x[2]) == 2 and x[2][1][0] == 'closure':
+                    cb_, cr_ = closure_ret(F, x[2][1])
+                    e_ = s(cr_[0]) if cr_ and len(cr_) == 1 else None
+                    exact = e_ is not None and ((e_[0] == 'bin' and e_[1] == 'Ne' and e_[3] in (('const', 0.0), ('const', 0)) and e_[2][0] in ('field', 'param')) or
+                                                (is_call(e_, 'PartialEq::ne') and s(e_[2][1]) in (('const', 0.0), ('const', 0))))
+                    if not exact:
+                        problems.append('coefficients are filtered out of a constraint row on a test other than "is exactly zero": the program solved is not A x <= b')
             uncond = all(l[0] == 'is' and is_call(l[1], 'Iterator::next') for l in ac[0][2])
             if not (okc and coeffs_ok and uncond):
                 problems.append('constraints are not "row i · vars <= bias i" for every row (op=%s rhs/row=%s coeffs=%s unconditional=%s)' % (fmt(a[2]), okc, coeffs_ok, uncond))
